@@ -325,6 +325,8 @@ def run(ctx):
         ctx.count(f"cli:{sc['occupant']}/{sc['kind']}:rc={res['rc']}")
         slug = classify(sc, res)
         case = {"search": sc["search"], "replace": sc["replace"], "tree": common.snap_digest(before),
+                "tree_src": {k: ([v[0], v[1].hex(), v[2]] if v[0] == "f" else list(v)) for k, v in sc["tree"].items()},
+                "direct": sc.get("direct"),
                 "src": sc["src"], "dst": sc["dst"], "occupant": sc["occupant"], "kind": sc["kind"], **res}
         if slug is None:
             continue
@@ -342,4 +344,24 @@ def run(ctx):
 
 def replay(ctx, path):
     obj = json.load(open(path))
-    print(json.dumps(obj, indent=1)[:3000])
+    case = obj.get("case")
+    if not isinstance(case, dict) or "tree_src" not in case:
+        print(json.dumps(obj, indent=1)[:3000])
+        return
+    ok, msg = common.cargo_build()
+    if not ok:
+        ctx.broke("build", "cargo", msg)
+        return
+    tree = {k: (("f", bytes.fromhex(v[1]), v[2]) if v[0] == "f" else tuple(v)) for k, v in case["tree_src"].items()}
+    sc = {"search": case["search"], "replace": case["replace"], "tree": tree, "src": case["src"], "dst": case["dst"],
+          "occupant": case["occupant"], "kind": case["kind"], "direct": case.get("direct")}
+    res, before, after = run_cli(ctx, sc)
+    slug = classify(sc, res)
+    print(json.dumps({"rc": res["rc"], "lost": res["lost"], "occupant_untouched": res["occupant_untouched"],
+                      "unchanged": res["unchanged"], "diff": common.snap_diff(before, after)}, indent=1, default=str)[:3000])
+    if slug is None:
+        print("property holds on this case")
+    elif not ctx.known(slug):
+        ctx.violation("input", case, expected="refusal with the tree unchanged, or success with every pre-existing file kept",
+                      observed={"rc": res["rc"], "lost": res["lost"], "occupant_untouched": res["occupant_untouched"]},
+                      note=f"replayed: failure shape {slug}")
